@@ -78,12 +78,16 @@ SANCTIONED: Dict[Tuple[str, str], List[Tuple[str, str, str]]] = {
     ("requests", "Request.__init__"): [("asgi", r"_is_disconnected|'http'", "ASGI tracks disconnects and asserts the scope type")],
     ("requests", "Request.stream"): [("*", ALL, "reads wsgi.input (WSGI) vs receive() messages (ASGI); structure checked by C10")],
     ("requests", "Request.json"): [("*", r"^\('call', 'loads', \(\"(self\.body|_L)\.decode\(self\.content_type\.options\.get\('charset', 'utf8'\)\)\",\)", "ASGI first awaits the cached body future into a local; same decode expression")],
-    ("requests", "Request.close"): [("*", r"'form' in self\.__dict__", "ASGI caches a future: it additionally requires the future to be done"), ("asgi", r"^\('const', \"'form'\"\)", "same")],
+    ("requests", "Request.close"): [("*", r"'form' in self\.__dict__", "ASGI caches a future: it additionally requires the future to be done"), ("asgi", r"^\('const', \"'form'\"\)", "same"),
+                                    ("*", r"^\('call', 'close', \(\), \(\), \(('_L\.done\(\)',)?\)\)", "same, with the cache looked up EAFP-style: the ASGI side closes the form only when its future is done")],
     ("responses", "FileResponse.handle_all"): [("*", r"'(open|seek|create_send_or_zerocopy|open_for_sendfile)'|'rb'", "file reading: with open (WSGI) vs sendfile closure (ASGI); framing checked by C02")],
     ("responses", "FileResponse.handle_single_range"): [("*", r"'(open|seek|create_send_or_zerocopy|open_for_sendfile)'|'rb'", "file reading vocabulary (C02)")],
     ("responses", "FileResponse.handle_several_ranges"): [("*", r"'(open|seek|create_send_or_zerocopy|open_for_sendfile)'|'rb'", "file reading vocabulary (C02)")],
     ("responses", "FileResponse.__call__"): [("asgi", r"^\('const', \"'headers'\"\)", "header scan loop")],
     ("responses", "SendEventResponse.render_stream"): [("*", r"'(close|aclose|submit|push|__iter__|__next__)'", "relay thread (WSGI) vs relay task (ASGI); hand-off checked by C06"),
+                                                       ("*", r"^\('attr-store', '\w+', '(queue|asyncio)\.Queue\(maxsize=1\)'", "the hand-off queue of the relay kept in a holder object: thread queue (WSGI) vs asyncio queue (ASGI); C06"),
+                                                       ("*", r"^\('attr-store', '\w+', '(threading|asyncio)\.Event\(\)'", "the stop flag kept as an Event of the respective concurrency model; C06"),
+                                                       ("*", r"^\('raise', '_L', \('finally', 'not \(_L is None\)'\)\)", "the relay's own exception is re-raised by the consumer's finally (the cancel test sits in a helper on one side)"),
                                                        ("wsgi", r"^\('const', '0\.\d+'\)", "poll interval of the WSGI consumer's drain-until-done loop (a thread cannot be cancelled; C06/R6.3)"),
                                                        ("*", r"^\('raise', '_L', \('finally', 'not \(_L is None\)', 'not \((_L|_L\.cancel\(\))\)'\)\)", "the relay's own exception is re-raised unless the relay was cancelled: WSGI takes cancel()'s result before its drain loop (a pool future that never started must not be waited for), ASGI tests it in place")],
     ("responses", "SendEventResponse.render_stream.push"): [("*", r"'(close|aclose|__iter__|__next__)'", "iterator protocol vocabulary")],
@@ -91,9 +95,9 @@ SANCTIONED: Dict[Tuple[str, str], List[Tuple[str, str, str]]] = {
     ("responses", "StreamingResponse.__call__"): [("asgi", r"'(close|send|wait_close)'", "disconnect watcher and generator driving are ASGI plumbing (C06)")],
     ("routing", "Hosts.__call__"): [("asgi", r"^\('const', \"'headers'\"\)", "header scan loop")],
     ("staticfiles", "Files.__call__"): [("asgi", r"^\('const', \"'headers'\"\)", "header scan loop"),
-                                        ("*", r"^\('call', '(ensure_absolute_path|request_path)', \((\"REQ\['path'\]\"|'request_path\(REQ\)'|)", "WSGI re-decodes PATH_INFO (Latin-1 -> UTF-8) through request_path(); ASGI reads scope['path'] (R4.7)")],
+                                        ("*", r"^\('call', '\w+', \((\"REQ\['path'\]\"|'request_path\(REQ\)'|)", "WSGI re-decodes PATH_INFO (Latin-1 -> UTF-8) through request_path(); ASGI reads scope['path'] (R4.7)")],
     ("staticfiles", "Pages.__call__"): [("asgi", r"^\('const', \"'headers'\"\)", "header scan loop"),
-                                        ("*", r"^\('call', '(ensure_absolute_path|request_path)', \((\"REQ\['path'\]\"|'request_path\(REQ\)'|)", "WSGI re-decodes PATH_INFO (Latin-1 -> UTF-8) through request_path(); ASGI reads scope['path'] (R4.7)")],
+                                        ("*", r"^\('call', '\w+', \((\"REQ\['path'\]\"|'request_path\(REQ\)'|)", "WSGI re-decodes PATH_INFO (Latin-1 -> UTF-8) through request_path(); ASGI reads scope['path'] (R4.7)")],
     ("shortcut", "request_response"): [("asgi", r"websocket|WebsocketDenialResponse|'Response', \('404',\)|'404'|not \(REQ\['type'\]", "ASGI apps also receive websocket scopes and deny them")],
     ("shortcut", "request_response.wsgi"): [("asgi", r"websocket|WebsocketDenialResponse|'Response', \('404',\)|'404'|not \(REQ\['type'\]", "ASGI apps also receive websocket scopes and deny them"),
                                             ("wsgi", r"^\('call', 'Request', \(\), \(\), \(\)\)", "same call, unguarded on WSGI")],
@@ -345,7 +349,7 @@ def run(p: Program, rep: Report, tier: str) -> None:
         if ok_:
             rep.ok("R4.7", f"{f_.fq}: PATH_INFO is re-decoded (Latin-1 -> UTF-8) before it is used as text, like scope['path']")
         else:
-            rep.violation("R4.7", construct(f_, text=f"PATH_INFO as text in self.{c_.func.attr}(...)"), where(f_, c_),
+            rep.violation("R4.7", construct(f_, text="PATH_INFO used as text without re-decoding"), where(f_, c_),
                           f"{f_.fq} matches environ['PATH_INFO'] against text (self.{c_.func.attr}) without re-decoding it: WSGI delivers the path bytes as Latin-1 text, ASGI as UTF-8 text, so the same "
                           "request for a non-ASCII path (/café) is routed on ASGI and answered 404 on WSGI")
     if n47 == 0:
@@ -443,7 +447,11 @@ def _unit_fingerprint(ms: List[FuncInfo], names) -> "Counter":
     from collections import Counter
     fp: Counter = Counter(fingerprint(ms[0], names))
     for mem in ms[1:]:
-        fp.update(fingerprint(mem, names, 1))  # private members: effects only (their parameters and return shape are not behaviour)
+        sub = fingerprint(mem, names, 1)  # private members: effects only (their parameters and return shape are not behaviour)
+        if _private_class(mem.cls):
+            # what a private holder object stores on itself is its own business, not an attribute of the response / request
+            sub = Counter({k: v for k, v in sub.items() if k[0] != "attr-store"})
+        fp.update(sub)
     return fp
 
 
